@@ -237,7 +237,10 @@ def coq_make(clean=False, timeout=3000):
                 return False, out
         if clean:
             run(["make", "clean"], cwd=COQ, timeout=300)
-        rc, out = run(["make", "-k", "-j%d" % NCPU], cwd=COQ, timeout=timeout)
+        # every coqc under a time and address-space limit: one runaway file
+        # must not starve the other properties' checks
+        rc, out = run(["bash", "-c", "ulimit -v 24000000; exec make -k -j%d COQC='timeout 1200 coqc'" % NCPU],
+                      cwd=COQ, timeout=timeout)
         return rc == 0, out
 
 
